@@ -92,6 +92,8 @@ class C06(Prop):
             "companion": gen.companion(),
             # calls with unsendable arguments that the application tries (and whose error it catches) on the way
             "noise_calls": gen.noise_calls(),
+            # the application has switched on DEBUG logging for the library
+            "debug_log": gen.debug_log(),
             # connect() options that must not matter here
             "copts_noise": gen.copts_noise(("poll", "ping_timeout", "close_timeout",)),
         })
